@@ -13,6 +13,45 @@ HP_ACTIONS = ['Begin', 'Touch', 'StartFlush', 'AllocTo', 'a_ld1', 'a_set', 'a_fe
               'r_st', 'c_set', 'op_done', 'x_cas', 's_fence8', 's_ld', 's_fence9', 's_free']
 
 
+def eb_consts(**kw):
+    c = {'Threads': '<-ThreadsDef', 'Locs': '<-LocsDef', 'InitVal': '<-InitValDef', 'Ord': '<-OrdCode', 'Weak': False,
+         'NT': 2, 'NG': 1, 'NCells': 1, 'NNodes': 3, 'MaxOps': 2, 'MaxFlush': 7, 'MaxEpoch': 12, 'ScanFreq': 0, 'ScanN': 0,
+         'Abandon': 'never', 'AbT': 1, 'Ext': 'none', 'NumEpochs': 3, 'StaleBlocks': True, 'AdoptFirst': True}
+    c.update(kw)
+    return c
+
+
+EB_ACTIONS = ['Begin', 'Touch', 'StartExit', 'x_orph', 'a_ld1', 'a_ld2', 'r_begin', 'ec_begin', 'c_flag', 'c_fence', 'c_ge', 'c_le', 's_crit', 's_le',
+              'g_ld', 'g_fence', 'g_cas', 'g_adopt', 'g_giveback', 'g_done', 'u_le', 'u_stle', 'lc_begin', 'l_flag', 'op_done', 'x_cas']
+
+
+def eb_jobs(ctx, inv):
+    """generic_epoch_based: epoch_based / new_epoch_based / debra shaped configurations of spec/impl/EpochBased.tla"""
+    q = ctx.quick
+    mc = lambda name, **kw: tlc_mc(ctx, name, 'EpochBased', eb_consts(**kw.pop('c', {})), invariants=kw.pop('inv', inv), view='mcview',
+                                   constraints=['EpochBound'], **kw)
+    jobs = [
+        lambda: mc('eb_all_threads', workers=8, tmo=900, must_cover=EB_ACTIONS),
+        lambda: mc('eb_toggle_ignore_stale', c={'StaleBlocks': False}, inv=['Safe'], workers=4, expect='violation'),
+        lambda: mc('eb_toggle_two_epochs', c={'NumEpochs': 2}, inv=['Safe'], workers=4, expect='violation'),
+        # three roles: a thread advancing the epoch, one that retires a node and exits (orphans), one that holds a guard on the node
+        lambda: mc('eb_3t_exit', c={'NT': 3, 'MaxOps': 1, 'MaxFlush': 0}, inv=['Safe'], workers=8, tmo=900, must_cover=['g_adopt', 'g_giveback', 'x_orph']),
+        lambda: mc('eb_toggle_adopt_after_cas', c={'NT': 3, 'MaxOps': 1, 'MaxFlush': 0, 'AdoptFirst': False}, inv=['Safe'], workers=4, expect='violation'),
+    ]
+    if not q:
+        jobs += [
+            lambda: mc('eb_one_thread_scan', c={'ScanN': 1}, workers=8, tmo=1800),
+            lambda: mc('eb_scanfreq1', c={'ScanFreq': 1}, workers=8, tmo=1800),
+            lambda: mc('eb_region_eager', c={'Ext': 'eager'}, workers=8, tmo=1800, must_cover=['rg_enter', 'rg_leave']),
+            lambda: mc('eb_region_lazy', c={'Ext': 'lazy'}, workers=8, tmo=1800, must_cover=['rg_enter', 'rg_leave', 'c_ldflag']),
+            lambda: mc('eb_abandon_always', c={'Abandon': 'always'}, workers=8, tmo=1800, must_cover=['l_abandon']),
+            lambda: mc('eb_3t_abandon', c={'NT': 3, 'MaxOps': 1, 'MaxFlush': 0, 'Abandon': 'always'}, inv=['Safe'], workers=8, tmo=3000, heap='16g'),
+            lambda: mc('eb_3t_2ops', c={'NT': 3, 'MaxOps': 2, 'MaxFlush': 0, 'NNodes': 4}, inv=['Safe'], workers=12, tmo=5000, heap='24g'),
+            lambda: mc('eb_abandon_threshold', c={'Abandon': 'thr', 'AbT': 2, 'MaxOps': 3, 'NNodes': 4}, workers=12, tmo=3000, heap='24g'),
+        ]
+    return jobs
+
+
 def run_models(ctx, pid):
     q = ctx.quick
     inv = {'C01': ['Safe'], 'C02': ['Safe', 'NoLeak'], 'C18': ['Safe', 'SlotsConserved'], 'C17': ['Safe', 'NoLeak']}[pid]
@@ -28,5 +67,7 @@ def run_models(ctx, pid):
             lambda: tlc_mc(ctx, 'hp_2t_2cells', 'HazardPointer', hp_consts(NCells=2, NNodes=4, MaxOps=3), invariants=inv, view='mcview', workers=12, tmo=3000, heap='24g'),
             lambda: tlc_mc(ctx, 'hp_3t', 'HazardPointer', hp_consts(NT=3, MaxOps=2, NNodes=4), invariants=inv, view='mcview', workers=12, tmo=3000, heap='24g'),
         ]
+    if pid in ('C01', 'C02', 'C17'):
+        jobs += eb_jobs(ctx, ['Safe'] if pid == 'C01' else inv)
     run_parallel(jobs, maxw=3)
     ctx.samples.append({'model': 'HazardPointer', 'constants': ctx.mc[0]['consts']})
